@@ -52,6 +52,21 @@ MUTANTS = [
      "                                                                infix_op_names__curr_level)\n\n"
      "        while infix_operator_name:",
      '_Parser.parse_w_infix_ops : '),
+    # inside parentheses a further operator of the level may stand on the next line: if it is not taken there, the
+    # closing-parenthesis helper (which accepts operator names) would take it
+    ('c06p6-second-operator-must-be-on-current-line', 'C06', _PARSER,
+     "            infix_operator_name = self.parse_optional_infix_op_name(new_line_ignore is None,\n",
+     "            infix_operator_name = self.parse_optional_infix_op_name(True,\n",
+     '_Parser.parse_w_infix_ops : '),
+    # parsers(b).simple: exactly one primitive; parsers(b).full: operators outside parentheses on the current line
+    ('c06p6-simple-parser-reads-full-expression', 'C06', _PARSER,
+     "        return _Parser(self._grammar, parser).parse_mandatory_primitive(False)",
+     "        return _Parser(self._grammar, parser).parse(_NEXT_EXPR_ON_ANY_LINE)",
+     '_SimpleParserOnAnyLineParser.parse_from_token_parser : ensures[the simple parser reads exactly one primitive]'),
+    ('c06p6-full-parser-operators-on-any-line', 'C06', _PARSER,
+     "        return _Parser(self._grammar, parser).parse(_NEXT_EXPR_ON_ANY_LINE)",
+     "        return _Parser(self._grammar, parser).parse(_IS_INSIDE_PARENTHESES)",
+     '_FullParserOnAnyLineParser.parse_from_token_parser : ensures[the full parser reads exactly'),
     # the full parser starts at the lowest precedence level
     ('c06p6-parse-skips-lowest-level', 'C06', _PARSER,
      "        return self.parse_w_maybe_infix_ops(new_line_ignore,\n"
@@ -59,4 +74,13 @@ MUTANTS = [
      "        return self.parse_w_maybe_infix_ops(new_line_ignore,\n"
      "                                            self.grammar.infix_ops_inc_precedence[1:])",
      '_Parser.parse : '),
+]
+
+# property-preserving edits: no alarm
+BENIGN = [
+    ('benign-c06p6-temporary-in-parse', 'C06', _PARSER,
+     [("        return self.parse_w_maybe_infix_ops(new_line_ignore,\n"
+       "                                            self.grammar.infix_ops_inc_precedence)",
+       "        all_levels = self.grammar.infix_ops_inc_precedence\n"
+       "        return self.parse_w_maybe_infix_ops(new_line_ignore, all_levels)")]),
 ]
